@@ -19,6 +19,61 @@ import (
 	"github.com/bbva/qed/verifx/fx"
 )
 
+// gapScenarios: "a transfer that would leave a gap in the version sequence is refused rather than
+// applied". The leader's write-ahead log is really purged (store opened with no WAL retention, closed
+// and reopened after p entries), then every follower position f (0 = a brand-new node) asks for a
+// transfer. Whatever the leader's log still holds, the outcome must be one of two: the transfer is
+// refused and the follower is exactly as before, or it succeeds and the follower equals a replica that
+// applied every entry itself.
+func gapScenarios(r *ev.Run) {
+	maxLen := 3
+	if r.Thorough() {
+		maxLen = 4
+	}
+	var seqs [][]int
+	var gen func(cur []int)
+	gen = func(cur []int) {
+		if len(cur) > 0 {
+			seqs = append(seqs, append([]int{}, cur...))
+		}
+		if len(cur) == maxLen {
+			return
+		}
+		for _, k := range []int{1, 2} {
+			gen(append(cur, k))
+		}
+	}
+	gen(nil)
+	var cases []fx.GapCase
+	for _, sq := range seqs {
+		for p := 1; p <= len(sq); p++ {
+			for f := 0; f < len(sq); f++ {
+				cases = append(cases, fx.GapCase{Entries: sq, PurgeAfter: p, FollowerApplied: f})
+			}
+		}
+	}
+	r.Bound("gap_cases", len(cases))
+	var mu sync.Mutex
+	out := map[string]int{}
+	ev.ParallelFor(len(cases), 8, func(i int) {
+		if !r.Mine(i) {
+			return
+		}
+		o := fx.RunGapCase(r, cases[i])
+		mu.Lock()
+		out[o]++
+		mu.Unlock()
+		r.Distinct(fmt.Sprint("gap", cases[i]))
+	})
+	for k, v := range out {
+		r.Extra("gap_"+k, v)
+		r.Outcome("gap " + k)
+	}
+	if out["refused"] == 0 {
+		r.Capped("gap scenarios vacuous: the leader's write-ahead log was never purged, no transfer had to be refused")
+	}
+}
+
 func TestC09(t *testing.T) {
 	r := ev.Begin("C09")
 	r.Rule("explicit-state BFS on a cluster of real RaftNode FSMs over real RocksDB stores; transitions = propose(bulk), deliver(r), snapshot(r) (real Snapshot+Persist; on the leader it compacts the log), install(r) (the follower's real Restore with the leader's snapshot; the gRPC fetch is replaced by the leader's real FetchSnapshot served in-process, so validateF, RocksDBStore.FetchSnapshot, LoadSnapshot, loadState and RefreshVersion all run), join (a brand-new replica), restart(r), transfer(r); after every transition the touched replicas are compared with a fault-free replica at the same applied index (version, FSM state, four table dumps, filled hyper-cache buckets) and every proof they serve is verified against the snapshots the leader acknowledged; snapshots that a restored replica computes locally for later entries must equal the leader's")
@@ -50,6 +105,7 @@ func TestC09(t *testing.T) {
 		r.Finish()
 		return
 	}
+	gapScenarios(r)
 	fx.BFS(r, reps, maxRep, b, depth, nil, runtime.NumCPU())
 	_ = fmt.Sprint
 	_ = sort.Ints
